@@ -31,6 +31,7 @@ def extra(tier):
     # process-global NumPy state (np.seterr) must survive every differentiation, including the ones that raise inside a rule
     enga.init()
     res += hist_probe.returned_value_probe()
+    res += hist_probe.global_state_probe()
     res += [r for r in lapack_probe.run(runner.SEED) if "np.geterr" in r["key"]]
     return res
 
